@@ -197,6 +197,24 @@ def worker_main(pid: str, tier: str, seed: int, shard: int, nshards: int, outfil
             continue
         eff = min(nshards, sub.max_shards)
         out['subs'][sub.name] = run_sub_in_worker(spec, sub, tier, seed, shard, eff)
+    out['sharded'] = {}
+    for name, fn in (spec.get('sharded') or {}).items():
+        t0 = time.time()
+        rec = {'result': None, 'violation': None, 'error': None}
+        try:
+            rec['result'] = fn(tier, shard, nshards, seed)
+        except Violation as v:
+            rec['violation'] = {'sub': name, 'bucket': v.bucket, 'message': v.message,
+                                'case': getattr(v, 'case', None)}
+        except BaseException as e:  # noqa
+            fr = cirbo_frame(e.__traceback__)
+            if fr is not None:
+                rec['violation'] = {'sub': name, 'bucket': f'crash:{type(e).__name__}@{fr}',
+                                    'message': f'{type(e).__name__}: {e}', 'case': getattr(e, 'case', None)}
+            else:
+                rec['error'] = ''.join(traceback.format_exception(type(e), e, e.__traceback__))[-6000:]
+        rec['wall_s'] = time.time() - t0
+        out['sharded'][name] = rec
     with open(outfile, 'w') as f:
         json.dump(out, f, default=str)
     return 0
@@ -212,6 +230,17 @@ def replay_file(spec, path: str) -> tuple[str, str]:
         rec = json.load(f)
     subs = {s.name: s for s in spec['subs']}
     sub = subs.get(rec['sub'])
+    if rec['sub'] in (spec.get('sharded') or {}) and rec['sub'] in (spec.get('replay') or {}):
+        try:
+            spec['replay'][rec['sub']](rec['case'])
+        except Violation as v:
+            return 'violation', f'{v.bucket}: {v.message}'
+        except BaseException as e:  # noqa
+            fr = cirbo_frame(e.__traceback__)
+            if fr is None:
+                return 'error', ''.join(traceback.format_exception(type(e), e, e.__traceback__))[-3000:]
+            return 'violation', f'crash:{type(e).__name__}@{fr}: {e}'
+        return 'pass', ''
     if rec['sub'] == 'exhaustive':
         try:
             for fn in (spec.get('exhaustive') or {}).values():
@@ -345,6 +374,25 @@ def parent_main(pid: str, tier: str) -> int:
             continue
         with open(outfile) as f:
             data = json.load(f)
+        for name, rec in (data.get('sharded') or {}).items():
+            if rec['violation']:
+                v = dict(rec['violation'])
+                v['hashseed'] = hs
+                violations.append(v)
+            if rec['error']:
+                errors.append(f'worker {shard} finite part {name}:\n{rec["error"]}')
+            r = rec['result'] or {}
+            e = extra.setdefault(name, {'evaluations': 0, 'distinct_nontrivial': 0, 'samples': [],
+                                        'count_in_totals': True, 'wall_s': 0.0, 'counters': {}})
+            e['evaluations'] += int(r.get('evaluations', 0))
+            e['distinct_nontrivial'] += int(r.get('distinct_nontrivial', 0))
+            e['wall_s'] = round(max(e['wall_s'], rec['wall_s']), 2)
+            for k, v in (r.get('counters') or {}).items():
+                e['counters'][k] = e['counters'].get(k, 0) + v
+            if len(e['samples']) < 3:
+                e['samples'].extend((r.get('samples') or [])[:1])
+            if 'exhaustive' in r:
+                e['exhaustive'] = bool(r['exhaustive']) and e.get('exhaustive', True)
         for sname, r in data['subs'].items():
             a = agg.setdefault(sname, {'evaluations': 0, 'nontrivial': set(), 'classes': {},
                                        'samples': [], 'known_hits': {}, 'wall_s': 0.0,
